@@ -777,10 +777,14 @@ def replay(rec):
     global _PDIR
     case = rec["case"]
     R, C = case["flags"]
+    if rec["key"].startswith("rejected:"):
+        _init_worker()
+        ok = compile_prog(case["program"]) is not None
+        print("program :", repr(case["program"]))
+        print("observed:", "parses" if ok else "SyntaxError", " expected: parses")
+        return 0 if ok else 1
     if case["seam"] == "process":
-        from .tables import ensure_tables
-
-        ensure_tables(completion=False)
+        _init_worker()
         _PDIR = _proc_setup()
         if "prog" in case:
             case["prog"]["tree"] = _tree_from_json(case["prog"]["tree"])
